@@ -322,6 +322,52 @@ func (m *c47) judgeMsg(r *kit.Rng, msg proto.Message, how string, touched []stri
 	}
 }
 
+// sweep validates every single-field-absent wire variant of every corpus message (the same authoritative path as judgeMsg).
+func (m *c47) sweep() {
+	c := m.c
+	for _, msg := range m.corpus {
+		tname := typeShort(reflect.TypeOf(msg))
+		var bz []byte
+		if pv, _ := guard(func() { bz, _ = proto.Marshal(msg) }); pv != nil || len(bz) == 0 {
+			continue
+		}
+		budget := 400
+		for _, v := range pbAllDrops(bz, 0, &budget) {
+			v := v
+			fresh := reflect.New(reflect.TypeOf(msg).Elem())
+			c.Inc("sweep_variants")
+			if !m.txDecodable(v.bz, fresh) {
+				c.Inc("sweep_filtered")
+				continue
+			}
+			var uerr error
+			wit := func() map[string]any { return map[string]any{"type": tname, "how": "sweep: wire field " + v.path + " absent"} }
+			if m.runJ(false, tname+".Unmarshal", v.bz, wit, func() {
+				if pm, ok := fresh.Interface().(codec.ProtoMarshaler); ok {
+					uerr = m.cdc.Unmarshal(v.bz, pm)
+				} else {
+					uerr = proto.Unmarshal(v.bz, fresh.Interface().(proto.Message))
+				}
+			}) || uerr != nil {
+				c.Inc("sweep_undecodable")
+				continue
+			}
+			outcome := "rejected"
+			for _, val := range validators(fresh) {
+				val := val
+				var res []reflect.Value
+				if m.run(tname+"."+methodName(val, fresh), v.bz, wit, func() { res = val.Call(nil) }) {
+					outcome = "panic"
+				} else if len(res) == 1 && res[0].IsNil() && outcome != "panic" {
+					outcome = "accepted"
+				}
+			}
+			c.Inc("sweep_validated")
+			c.Eval("sweep|" + tname + "|" + outcome)
+		}
+	}
+}
+
 func methodName(v reflect.Value, recv reflect.Value) string {
 	for _, n := range []string{"ValidateBasic", "Validate"} {
 		if mt := recv.MethodByName(n); mt.IsValid() && mt.Pointer() == v.Pointer() {
@@ -420,6 +466,12 @@ func (m *c47) setup(t *testing.T) {
 	add(ratelimittypes.NewMsgResetRateLimit("stake", "channel-0"), nil)
 	add(icacontrollertypes.NewMsgSendTx(signer, "connection-0", 100, icatypes.InterchainAccountPacketData{Type: icatypes.EXECUTE_TX, Data: []byte("x")}), nil)
 	add(&transfertypes.MsgUpdateParams{Signer: signer, Params: transfertypes.DefaultParams()}, nil)
+	coins := sdk.NewCoins(sdk.NewCoin("stake", sdkmath.NewInt(100)), sdk.NewCoin("uatom", sdkmath.NewInt(5)))
+	add(&transfertypes.TransferAuthorization{Allocations: []transfertypes.Allocation{
+		{SourcePort: "transfer", SourceChannel: "channel-0", SpendLimit: coins, AllowList: []string{validAddr}, AllowedPacketData: []string{"*"}},
+		{SourcePort: "transfer", SourceChannel: "channel-1", SpendLimit: coins},
+	}}, nil)
+	add(&transfertypes.MsgTransfer{SourcePort: "transfer", SourceChannel: "channel-0", Token: sdk.NewCoin("stake", sdkmath.NewInt(1)), Sender: signer, Receiver: "r", TimeoutHeight: clienttypes.NewHeight(1, 100), Memo: "m"}, nil)
 	if sm := ibctesting.NewSolomachine(t, A.Codec, "solo", "div", 2); sm != nil {
 		add(clienttypes.NewMsgCreateClient(sm.ClientState(), sm.ConsensusState(), signer))
 		add(clienttypes.NewMsgUpdateClient("06-solomachine-0", sm.CreateHeader("div2"), signer))
@@ -946,6 +998,7 @@ func TestC47(t *testing.T) {
 	c.Floor("wire_validated", 1500)
 	c.Floor("absent_field_variants", 150)
 	c.Floor("wire_field_dropped_variants", 1200)
+	c.Floor("sweep_validated", 500)
 	c.Floor("validation_accepted", 400)
 	c.Floor("validation_rejected", 1000)
 	c.Floor("wire_mutant_validated", 400)
@@ -975,7 +1028,15 @@ func TestC47(t *testing.T) {
 	bzTs := m.byteTargets()
 	exercised := map[string]bool{}
 
-	n := c.N(4500, 40000)
+	// systematic sweep: every corpus message with exactly one field absent from its wire form, at every nesting level
+	c.SetCase("sweep")
+	if c.OnlyCase == "" || c.OnlyCase == "sweep" {
+		if c.Shard == 0 {
+			m.sweep()
+		}
+	}
+
+	n := c.N(4500, 7000)
 	for i := 0; i < n; i++ {
 		if c.SkipCase(i) {
 			continue
